@@ -142,9 +142,9 @@ Theorem C07_remove_cells_is_selection : forall fl o ix o', wf o -> remove_cells 
 Proof. exact remove_cells_selection. Qed.
 Print Assumptions C07_remove_cells_is_selection.
 
-Theorem C07_masked_copy_is_selection : forall o ovm ocm o',
+Theorem C07_masked_copy_is_selection : forall fl o ovm ocm o',
   wf o -> (ovm = None \/ ocm = None) -> (ok o = OPoints -> ocm = None) ->
-  masked_copy o ovm ocm = Done o' ->
+  masked_copy fl o ovm ocm = Done o' ->
   selection (mask_or_all ovm (length (verts o))) (copy_cmask o (mask_or_all ovm (length (verts o))) ocm) o o'.
 Proof. exact masked_copy_done. Qed.
 Print Assumptions C07_masked_copy_is_selection.
@@ -173,6 +173,10 @@ Theorem C07_set_values : forall o id v p k,
 Proof. exact set_values_at. Qed.
 Print Assumptions C07_set_values.
 
+(* the witness of the refutations carries no text data *)
+Example witness_text_safe : text_safe_rv witness_obj [0%Z].
+Proof. left. split; intros k [<-|[]] _; discriminate. Qed.
+
 (* ------------------------------------------------------------------ failing operations *)
 (* full-strength statement: a failing operation leaves the object as it was (a refused add_data may leave a value-less child) *)
 Definition C07_atomic (fl : flags) : Prop :=
@@ -189,7 +193,7 @@ Print Assumptions C07_atomic_repaired.
    and vertex data were replaced; the cells are left un-renumbered (witness replayed on the implementation) *)
 Theorem C07_atomic_refuted : ~ C07_atomic as_is.
 Proof.
-  intros A. pose proof (A witness_obj (RemoveVertices [0%Z]) _ _ witness_wf I witness_as_is) as (_ & Hv & _).
+  intros A. pose proof (A witness_obj (RemoveVertices [0%Z]) _ _ witness_wf witness_text_safe witness_as_is) as (_ & Hv & _).
   simpl in Hv. discriminate.
 Qed.
 Print Assumptions C07_atomic_refuted.
@@ -210,7 +214,7 @@ Print Assumptions C07_history_consistent_repaired.
 (* REFUTED for the pinned tree: one valid removal makes a cell reference a missing vertex *)
 Theorem C07_history_consistent_refuted : ~ (forall ops o, wf o -> copies_ok o ops -> wf (run as_is o ops)).
 Proof.
-  intros A. assert (C : copies_ok witness_obj [RemoveVertices [0%Z]]) by (simpl; auto).
+  intros A. assert (C : copies_ok witness_obj [RemoveVertices [0%Z]]) by (simpl; split; [exact witness_text_safe|exact I]).
   pose proof (A [RemoveVertices [0%Z]] witness_obj witness_wf C) as (Wc & _).
   vm_compute in Wc. inversion Wc as [|? ? _ Wc']. inversion Wc' as [|? ? Hc _].
   inversion Hc as [|? ? _ Hc']. inversion Hc' as [|? ? Hlt _]. lia.
@@ -245,18 +249,19 @@ Example C07_nonvacuous :
 Proof.
   split; [|split; [|split; [|split]]].
   - split; [|split]; [repeat constructor|repeat constructor|discriminate].
-  - simpl. split.
+  - simpl. split; [|split].
     + right. split; intros k [<-|[<-|[]]]; simpl; discriminate.
     + right. right. intros I' HN. vm_compute in HN. injection HN as <-.
       exists [1;2], 1. simpl. auto.
-  - simpl. auto.
+    + left. split; intros k [<-|[<-|[]]] _; discriminate.
+  - simpl. split; [|exact I]. left. split; intros k [<-|[<-|[]]] _; discriminate.
   - vm_compute. reflexivity.
   - vm_compute. reflexivity.
 Qed.
 
 (* the refuted statements' hypotheses are met by the witness (so the refutation is not about an ill-formed input) *)
 Example C07_witness_consistent : wf witness_obj /\ copy_args_ok witness_obj (RemoveVertices [0%Z]).
-Proof. split; [exact witness_wf|exact I]. Qed.
+Proof. split; [exact witness_wf|exact witness_text_safe]. Qed.
 
 (* a failing operation exists for the repaired code too (so C07_atomic_repaired is not vacuous): out-of-range index *)
 Example C07_repaired_failure :
